@@ -5,7 +5,9 @@
    muggle_next_pow_of_2 uninterpreted (any function); the references, instantiated with the C20 model
    of muggle_next_pow_of_2 (C20/Model.v model_npo2, tied to utils.c by C20's gen_npo2_eq), are then
    related to the model's next_pow2 / tinit / sinit / rinit, and the widths of the size products are
-   taken from the C text: they are 32-bit products, so the size theorems are _partial with witnesses. *)
+   taken from the C text.  THIS IS THE VARIANT FOR THE REPAIRED CODE (fixes/C05-init-size-overflow.patch): block size
+   and capacity * block_size are computed in 64 bits and a data area that does not fit muggle_sync_t is refused, so
+   the size theorems hold in full (the _init_sizes_exact theorems) and the former _refuted witnesses are refused. *)
 From MV Require Import Lib.Leaf C05.Model C05.GenLib gen.Params_C05 C05.ProofsGen.
 From MV Require C20.Model C20.ProofsNpo2.
 From Coq Require Import ZifyBool.
@@ -22,13 +24,21 @@ Definition two64 : Z := 18446744073709551616.
 (* result tuples: (return code, alloc_idx, block_size, cached_free_pos, capacity, free_idx, ring of
    pointers / header words, bytes requested from the allocator ..., pointer fields: 0 = NULL, k = k-th
    allocation) *)
+(* MUGGLE_ALIGN_TRUE_SHARING on uint64_t *)
+Definition align64 (hd d : Z) : Z :=
+  let b := (hd + d) mod two64 in
+  let r := ((b + 64) mod two64 - 1) mod two64 in
+  (r - r mod 64 + 128) mod two64.
+Definition max32 : Z := 4294967295.     (* UINT32_MAX *)
+
 Definition ref_ts_init (npo2 : Z -> Z) (a bs c cap f : Z) (ptrs : list Z) (a1 a2 m1 m2 : Z) :=
   let fail := (code_MUGGLE_ERR_INVALID_PARAM, a, bs, c, cap, f, ptrs, -1, -1, -1, -1) in
   if a1 <=? 0 then fail else if a2 <=? 0 then fail else
   let cap' := npo2 a1 mod two32 in
   if cap' <=? 0 then fail else
-  let bs' := align_ts code_sizeof_muggle_ts_memory_pool_head_t a2 in
-  if bs' <=? 0 then fail else
+  let bs64 := align64 code_sizeof_muggle_ts_memory_pool_head_t a2 in
+  if bs64 >? Z.quot max32 cap' then fail else
+  let bs' := bs64 mod two32 in
   let msz1 := (cap' * bs') mod two32 in
   let msz2 := (cap' * code_sizeof_muggle_ts_memory_pool_head_ptr_t) mod two64 in
   if (m1 =? 0) || (m2 =? 0)
@@ -41,8 +51,9 @@ Definition ref_sowr_init (npo2 : Z -> Z) (a bs c cap f : Z) (hb : list Z) (a1 a2
   let c0 := if a1 <=? 0 then 8 else a1 in
   let cap' := npo2 c0 mod two32 in
   if cap' <=? 0 then fail else
-  let bs' := align_ts code_sizeof_muggle_sowr_block_head_t a2 in
-  if bs' <=? 0 then fail else
+  let bs64 := align64 code_sizeof_muggle_sowr_block_head_t a2 in
+  if bs64 >? Z.quot max32 cap' then fail else
+  let bs' := bs64 mod two32 in
   let msz := (bs' * cap') mod two32 in
   if m1 =? 0 then (code_MUGGLE_ERR_MEM_ALLOC, 0, bs', 0, cap', 0, hb, msz, 0)
   else (code_MUGGLE_OK, 0, bs', (cap' - 1) mod two32, cap', 0,
@@ -53,7 +64,9 @@ Definition ref_ring_init (npo2 : Z -> Z) (a bs cap : Z) (hb hu : list Z) (a1 a2 
   let c0 := if a1 <? 2 then 2 else a1 in
   let cap' := npo2 c0 mod two32 in
   if cap' <? 2 then fail else if a2 =? 0 then fail else
-  let bs' := npo2 ((a2 + code_sizeof_muggle_ring_mpool_block_head_t) mod two64) mod two32 in
+  let bs64 := npo2 ((a2 + code_sizeof_muggle_ring_mpool_block_head_t) mod two64) in
+  if bs64 >? Z.quot max32 cap' then fail else
+  let bs' := bs64 mod two32 in
   let msz := (bs' * cap') mod two32 in
   if m1 =? 0 then (code_MUGGLE_ERR_MEM_ALLOC, 0, bs', cap', hb, hu, msz, 0)
   else (code_MUGGLE_OK, 0, bs', cap',
@@ -63,11 +76,32 @@ Definition ref_ring_init (npo2 : Z -> Z) (a bs cap : Z) (hb hu : list Z) (a1 a2 
 (* ====================================================================== *)
 (* generated = reference, for every npo2, every argument, every allocation outcome *)
 
+(* x & 0xffffffffffffffc0 on a 64-bit value *)
+Lemma land_m64_64 x : 0 <= x < 18446744073709551616 -> Z.land x 18446744073709551552 = x - x mod 64.
+Proof.
+  intros H.
+  replace 18446744073709551552 with (Z.ldiff (Z.ones 64) (Z.ones 6)) by reflexivity.
+  assert (E : Z.land x (Z.ldiff (Z.ones 64) (Z.ones 6)) = Z.ldiff (Z.land x (Z.ones 64)) (Z.ones 6)).
+  { apply Z.bits_inj'. intros i Hi. rewrite !Z.land_spec, !Z.ldiff_spec, !Z.land_spec. apply andb_assoc. }
+  rewrite E. rewrite Z.land_ones by lia. change (2 ^ 64) with 18446744073709551616. rewrite Z.mod_small by lia.
+  rewrite Z.ldiff_ones_r by lia. rewrite Z.shiftl_mul_pow2, Z.shiftr_div_pow2 by lia.
+  change (2 ^ 6) with 64. pose proof (Z.div_mod x 64 ltac:(lia)). lia.
+Qed.
+Ltac norm_masks64 :=
+  repeat match goal with
+  | |- context [Z.land ?x ?m] =>
+      closed_term m;
+      let mv := eval vm_compute in m in
+      lazymatch mv with
+      | 18446744073709551552 => change m with 18446744073709551552; rewrite (land_m64_64 x) by (timeout 20 lia)
+      end
+  end.
+
 Ltac init_decide :=
-  unfold align_ts, two64, code_MUGGLE_ERR_INVALID_PARAM, code_MUGGLE_ERR_MEM_ALLOC, code_MUGGLE_OK,
+  unfold align_ts, align64, max32, two64, code_MUGGLE_ERR_INVALID_PARAM, code_MUGGLE_ERR_MEM_ALLOC, code_MUGGLE_OK,
     code_sizeof_muggle_ts_memory_pool_head_t, code_sizeof_muggle_ts_memory_pool_head_ptr_t,
     code_sizeof_muggle_sowr_block_head_t, code_sizeof_muggle_ring_mpool_block_head_t;
-  unfold_leaf; norm_masks; norm_rem; split_ifs; finish.
+  unfold_leaf; norm_masks; norm_masks64; norm_rem; split_ifs; finish.
 
 Lemma gen_ts_init_ref : forall npo2 a bs c cap f ptrs a1 a2 m1 m2, u32 a1 -> u32 a2 ->
   gen_ts_init npo2 a bs c cap f ptrs a1 a2 m1 m2 = ref_ts_init npo2 a bs c cap f ptrs a1 a2 m1 m2.
@@ -178,8 +212,11 @@ Ltac code_consts :=
     code_sizeof_muggle_ts_memory_pool_head_t, code_sizeof_muggle_ts_memory_pool_head_ptr_t,
     code_sizeof_muggle_sowr_block_head_t, code_sizeof_muggle_ring_mpool_block_head_t in *.
 
-(* the rounded block size when nothing wraps: header + data rounded up to 64, plus two cache lines *)
+(* the rounded block size: header + data rounded up to 64, plus two cache lines *)
 Definition true_sharing (need : Z) : Z := (need + 63) / 64 * 64 + 128.
+
+Lemma align64_exact hd d : 0 <= hd <= 4096 -> 0 <= d < two32 -> align64 hd d = true_sharing (hd + d).
+Proof. unfold align64, true_sharing, two64, two32. intros. lia. Qed.
 
 Lemma align_ts_exact hd d : 0 <= hd -> 0 <= d -> true_sharing (hd + d) < two32 ->
   align_ts hd d = true_sharing (hd + d).
@@ -191,7 +228,6 @@ Proof. unfold true_sharing. intros. lia. Qed.
 Lemma pow2cap_mod32 cap : pow2cap cap -> cap mod two32 = cap.
 Proof. intros H. pose proof (pow2cap_pos _ H). unfold two32. apply Z.mod_small. lia. Qed.
 
-(* cells of the ring of pointers / header words after the init loop *)
 Lemma init_fill_cells : forall (l : list Z) cap bs (fv : Z -> Z), 0 < cap -> fits cap bs -> zlenZ l = cap ->
   (forall j, 0 <= j < cap -> lget (lfill l cap (fun i => i) fv) j = fv j) /\
   (forall j, 0 <= j < cap -> lget (lfill l cap (fun i => blkidx 32 bs i) fv) j = fv j).
@@ -206,245 +242,307 @@ Proof.
     + intros i Hi. rewrite (blkidx_wide 32 bs i cap) by lia. lia.
 Qed.
 
+(* a data area of cap blocks of bs bytes fits muggle_sync_t *)
+Definition area_fits (cap bs : Z) : Prop := cap * bs <= max32.
+
 (* ---------------- ts pool ---------------- *)
 Lemma ts_init_refuses a bs c cap f ptrs c0 d m1 m2 : 0 <= c0 < two32 -> 0 <= d < two32 ->
-  c0 = 0 \/ 2147483648 < c0 \/ d = 0 \/ align_ts code_sizeof_muggle_ts_memory_pool_head_t d = 0 ->
+  c0 = 0 \/ 2147483648 < c0 \/ d = 0 \/
+  ~ area_fits (npo2z c0) (true_sharing (code_sizeof_muggle_ts_memory_pool_head_t + d)) ->
   ref_ts_init npo2z a bs c cap f ptrs c0 d m1 m2 = (code_MUGGLE_ERR_INVALID_PARAM, a, bs, c, cap, f, ptrs, -1, -1, -1, -1).
 Proof.
   intros Hc Hd H. unfold ref_ts_init. cbv zeta.
   destruct (c0 <=? 0) eqn:E1; [reflexivity|]. destruct (d <=? 0) eqn:E2; [reflexivity|].
-  destruct H as [H|[H|[H|H]]]; try lia.
-  - rewrite npo2z_big by (unfold two32 in *; lia). reflexivity.
-  - destruct (npo2z c0 mod two32 <=? 0); [reflexivity|]. rewrite H. reflexivity.
+  destruct (Z_le_gt_dec c0 2147483648) as [Hle|Hgt].
+  2:{ rewrite npo2z_big by (unfold two32 in *; lia). change (0 <=? 0) with true. cbv iota. reflexivity. }
+  destruct H as [H|[H|[H|H]]]; try (exfalso; lia).
+  assert (Hc1 : 1 <= c0 <= 2147483648) by lia.
+  destruct (npo2z_cap c0 Hc1) as [Hp _]. pose proof (pow2cap_pos _ Hp) as Hpos.
+  rewrite (pow2cap_mod32 _ Hp). replace (npo2z c0 <=? 0) with false by lia.
+  rewrite align64_exact by (code_consts; unfold two32 in *; lia).
+  destruct (true_sharing_bounds (code_sizeof_muggle_ts_memory_pool_head_t + d)) as [Hb _]; [code_consts; lia|].
+  unfold area_fits, max32 in *.
+  rewrite Z.quot_div_nonneg by lia.
+  replace (true_sharing (code_sizeof_muggle_ts_memory_pool_head_t + d) >? 4294967295 / npo2z c0) with true
+    by (symmetry; apply Z.gtb_lt; apply Z.div_lt_upper_bound; lia).
+  reflexivity.
 Qed.
 
 Lemma ts_init_accepts a bs c cap f ptrs c0 d m1 m2 n scripts :
-  1 <= c0 <= 2147483648 -> 1 <= d < two32 -> align_ts code_sizeof_muggle_ts_memory_pool_head_t d <> 0 ->
+  1 <= c0 <= 2147483648 -> 1 <= d < two32 ->
+  area_fits (npo2z c0) (true_sharing (code_sizeof_muggle_ts_memory_pool_head_t + d)) ->
   m1 <> 0 -> m2 <> 0 ->
   let s0 := tinit (next_pow2 (Z.to_nat c0)) n scripts in
   let cap' := zn (t_cap s0) in
-  let bs' := align_ts code_sizeof_muggle_ts_memory_pool_head_t d in
+  let bs' := true_sharing (code_sizeof_muggle_ts_memory_pool_head_t + d) in
   ref_ts_init npo2z a bs c cap f ptrs c0 d m1 m2 =
     (code_MUGGLE_OK, zn (t_alloc s0), bs', zn (t_cached s0), cap', zn (t_free s0),
      lfill ptrs cap' (fun i => i) (fun i => blkidx 32 bs' i),
-     (cap' * bs') mod two32, cap' * code_sizeof_muggle_ts_memory_pool_head_ptr_t, 1, 2) /\
+     cap' * bs', cap' * code_sizeof_muggle_ts_memory_pool_head_ptr_t, 1, 2) /\
   pow2cap cap' /\ c0 <= cap' /\ (forall j, t_ptrs s0 j = j).
 Proof.
-  intros Hc Hd Hb H1 H2 s0 cap' bs'. subst s0 cap'. cbn [tinit t_cap t_alloc t_cached t_free t_ptrs].
+  intros Hc Hd Hfit H1 H2 s0 cap' bs'. subst s0 cap'. cbn [tinit t_cap t_alloc t_cached t_free t_ptrs].
   rewrite (next_pow2_npo2z c0 Hc). destruct (npo2z_cap c0 Hc) as [Hp Hle]. pose proof (pow2cap_pos _ Hp) as Hpos.
   split; [|repeat split; auto].
-  unfold ref_ts_init. cbv zeta. rewrite (pow2cap_mod32 _ Hp). fold bs'.
-  assert (Hbs : 0 <= bs' < two32) by (subst bs'; unfold align_ts, two32; apply Z.mod_pos_bound; lia).
+  unfold ref_ts_init. cbv zeta. rewrite (pow2cap_mod32 _ Hp).
+  rewrite align64_exact by (code_consts; unfold two32 in *; lia). fold bs'.
+  destruct (true_sharing_bounds (code_sizeof_muggle_ts_memory_pool_head_t + d)) as [Hb _]; [code_consts; lia|]. fold bs' in Hb.
+  unfold area_fits, max32 in *. fold bs' in Hfit.
+  assert (Hbs : 0 < bs' <= 4294967295) by (code_consts; nia).
   replace (c0 <=? 0) with false by lia. replace (d <=? 0) with false by lia.
-  replace (npo2z c0 <=? 0) with false by lia. replace (bs' <=? 0) with false by lia.
+  replace (npo2z c0 <=? 0) with false by lia.
+  rewrite Z.quot_div_nonneg by lia.
+  replace (bs' >? 4294967295 / npo2z c0) with false
+    by (symmetry; rewrite Z.gtb_ltb; apply Z.ltb_ge; apply Z.div_le_lower_bound; lia).
   replace ((m1 =? 0) || (m2 =? 0)) with false by lia.
+  rewrite (Z.mod_small bs' two32) by (unfold two32; lia).
+  rewrite (Z.mod_small (npo2z c0 * bs') two32) by (unfold two32; nia).
   rewrite (Z.mod_small (npo2z c0 * code_sizeof_muggle_ts_memory_pool_head_ptr_t) two64)
     by (code_consts; unfold two64; lia).
   reflexivity.
 Qed.
 
-(* the size products as the C text computes them (32-bit for the data area): exact when the data area is
-   smaller than 4 GiB, and then every block offset is exact and every ring cell holds its own block *)
-Lemma ts_init_sizes_partial_l a bs c cap f ptrs c0 d m1 m2 :
-  1 <= c0 <= 2147483648 -> 1 <= d -> m1 <> 0 -> m2 <> 0 ->
+(* FULL statement: for every argument pair, init either refuses or requests exactly capacity * block_size bytes for
+   blocks that hold head + data_size, with exact block offsets and every ring cell holding its own block *)
+Lemma ts_init_sizes_exact_l a bs c cap f ptrs c0 d m1 m2 :
+  0 <= c0 < two32 -> 0 <= d < two32 -> m1 <> 0 -> m2 <> 0 ->
   let cap' := npo2z c0 in
   let bs' := true_sharing (code_sizeof_muggle_ts_memory_pool_head_t + d) in
-  cap' * bs' < two32 ->
+  gen_ts_init npo2z a bs c cap f ptrs c0 d m1 m2 = (code_MUGGLE_ERR_INVALID_PARAM, a, bs, c, cap, f, ptrs, -1, -1, -1, -1) \/
   exists ptrs',
     gen_ts_init npo2z a bs c cap f ptrs c0 d m1 m2 =
       (code_MUGGLE_OK, 0, bs', 0, cap', 0, ptrs', cap' * bs', cap' * code_sizeof_muggle_ts_memory_pool_head_ptr_t, 1, 2) /\
-    fits cap' bs' /\ code_sizeof_muggle_ts_memory_pool_head_t + d + 128 <= bs' /\
+    1 <= c0 <= cap' /\ pow2cap cap' /\ fits cap' bs' /\ code_sizeof_muggle_ts_memory_pool_head_t + d + 128 <= bs' /\
     (forall i, 0 <= i < cap' -> blkidx 32 bs' i = i) /\
     (zlenZ ptrs = cap' -> forall j, 0 <= j < cap' -> lget ptrs' j = j).
 Proof.
-  intros Hc Hd H1 H2 cap' bs' Hfit.
-  destruct (npo2z_cap c0 Hc) as [Hp Hle]. pose proof (pow2cap_pos _ Hp) as Hpos. fold cap' in Hp, Hle, Hpos.
-  assert (Hh : 0 <= code_sizeof_muggle_ts_memory_pool_head_t) by (code_consts; lia).
-  destruct (true_sharing_bounds (code_sizeof_muggle_ts_memory_pool_head_t + d)) as [Hb1 Hb2]; [lia|]. fold bs' in Hb1, Hb2.
-  assert (Hbs : bs' < two32) by (unfold two32 in *; nia).
-  assert (Ea : align_ts code_sizeof_muggle_ts_memory_pool_head_t d = bs') by (apply align_ts_exact; try lia; exact Hbs).
-  assert (Hdd : 1 <= d < two32) by (unfold two32 in *; lia).
-  assert (Hnz : align_ts code_sizeof_muggle_ts_memory_pool_head_t d <> 0) by (rewrite Ea; lia).
-  assert (F : fits cap' bs') by (split; [lia | unfold two32 in Hfit; exact Hfit]).
+  intros Hc Hd H1 H2 cap' bs'.
   rewrite gen_ts_init_ref by (unfold u32, two32 in *; lia).
-  destruct (ts_init_accepts a bs c cap f ptrs c0 d m1 m2 0%nat (fun _ => []) Hc Hdd Hnz H1 H2) as (E & _ & _ & _).
-  cbn [tinit t_cap t_alloc t_cached t_free] in E. rewrite (next_pow2_npo2z c0 Hc) in E. fold cap' in E. rewrite Ea in E.
-  eexists. split; [rewrite E; rewrite (Z.mod_small (cap' * bs') two32) by (unfold two32 in *; nia); reflexivity|].
-  split; [exact F|]. split; [lia|]. split.
-  - intros i Hi. apply (blkidx_wide 32 bs' i cap'); try lia. apply F.
+  destruct (Z.eq_dec c0 0) as [Z0|N0]; [left; apply ts_init_refuses; auto|].
+  destruct (Z_le_gt_dec c0 2147483648) as [Hle|Hgt]; [|left; apply ts_init_refuses; auto; lia].
+  destruct (Z.eq_dec d 0) as [D0|DN]; [left; apply ts_init_refuses; auto|].
+  destruct (Z_le_gt_dec (cap' * bs') max32) as [Hfit|Hno].
+  2:{ left. apply ts_init_refuses; auto. all: try (right; right; right; unfold area_fits; fold cap' bs'; lia). }
+  right. assert (Hc1 : 1 <= c0 <= 2147483648) by lia. assert (Hd1 : 1 <= d < two32) by lia.
+  destruct (ts_init_accepts a bs c cap f ptrs c0 d m1 m2 0%nat (fun _ => []) Hc1 Hd1 Hfit H1 H2) as (E & _).
+  cbn [tinit t_cap t_alloc t_cached t_free] in E. rewrite (next_pow2_npo2z c0 Hc1) in E. fold cap' bs' in E.
+  destruct (npo2z_cap c0 Hc1) as [Hp Hle2]. pose proof (pow2cap_pos _ Hp) as Hpos. fold cap' in Hp, Hle2, Hpos.
+  destruct (true_sharing_bounds (code_sizeof_muggle_ts_memory_pool_head_t + d)) as [Hb _]; [code_consts; lia|]. fold bs' in Hb.
+  assert (F : fits cap' bs') by (split; [code_consts; lia | unfold max32 in Hfit; lia]).
+  eexists. split; [rewrite E; reflexivity|].
+  split; [lia|]. split; [exact Hp|]. split; [exact F|]. split; [lia|]. split.
+  - intros i Hi. apply (blkidx_wide 32 bs' i cap'); try lia; apply F.
   - intros Hl j Hj. destruct (init_fill_cells ptrs cap' bs' (fun i => blkidx 32 bs' i) ltac:(lia) F Hl) as [A _].
-    rewrite A by lia. apply (blkidx_wide 32 bs' j cap'); try lia. apply F.
+    rewrite A by lia. apply (blkidx_wide 32 bs' j cap'); try lia; apply F.
 Qed.
 
-Example ts_init_sizes_partial_nonvacuous :
-  1 <= 5 <= 2147483648 /\ npo2z 5 * true_sharing (code_sizeof_muggle_ts_memory_pool_head_t + 100) < two32.
-Proof. vm_compute. split; [split; discriminate | reflexivity]. Qed.
+Example ts_init_sizes_exact_nonvacuous :
+  area_fits (npo2z 5) (true_sharing (code_sizeof_muggle_ts_memory_pool_head_t + 100)) /\
+  ~ area_fits (npo2z 8) (true_sharing (code_sizeof_muggle_ts_memory_pool_head_t + 536870912)).
+Proof. unfold area_fits. vm_compute. split; [discriminate | intro H; apply H; reflexivity]. Qed.
 
-(* the full statement "init accepts only arguments whose size products are exact" is REFUTED: the data
-   area is requested with a 32-bit product *)
-Lemma ts_init_size_product_wraps_l : exists c0 d bs' cap' msz,
-  gen_ts_init npo2z 0 0 0 0 0 [] c0 d 1 1 =
-    (code_MUGGLE_OK, 0, bs', 0, cap', 0, [], msz, cap' * code_sizeof_muggle_ts_memory_pool_head_ptr_t, 1, 2) /\
-  1 <= c0 <= 8 /\ d < bs' /\ msz < cap' * bs'.
-Proof. exists 8, 536870912, 536871104, 8, 1536. split; [vm_compute; reflexivity|]. vm_compute. repeat split; discriminate. Qed.
-
-(* ... and the block size itself is computed on 32 bits: a block smaller than the data it is to hold *)
-Lemma ts_init_block_size_wraps_l : exists d bs' msz,
-  gen_ts_init npo2z 0 0 0 0 0 [] 1 d 1 1 =
-    (code_MUGGLE_OK, 0, bs', 0, 1, 0, [], msz, code_sizeof_muggle_ts_memory_pool_head_ptr_t, 1, 2) /\
-  0 <= d < two32 /\ bs' < d.
-Proof. exists 4294967288, 128, 128. split; [vm_compute; reflexivity|]. vm_compute. repeat split; discriminate. Qed.
+(* the arguments that the unrepaired code accepted with a wrapped size are refused now *)
+Lemma ts_init_oversize_refused_l :
+  gen_ts_init npo2z 0 0 0 0 0 [] 8 536870912 1 1 = (code_MUGGLE_ERR_INVALID_PARAM, 0, 0, 0, 0, 0, [], -1, -1, -1, -1) /\
+  gen_ts_init npo2z 0 0 0 0 0 [] 1 4294967288 1 1 = (code_MUGGLE_ERR_INVALID_PARAM, 0, 0, 0, 0, 0, [], -1, -1, -1, -1).
+Proof. split; vm_compute; reflexivity. Qed.
 
 (* ---------------- sowr pool ---------------- *)
 Definition sowr_cap_arg (c0 : Z) : Z := if c0 <=? 0 then 8 else c0.       (* capacity 0 means 8 *)
 
 Lemma sowr_init_refuses a bs c cap f hb c0 d m1 : 0 <= c0 < two32 -> 0 <= d < two32 ->
-  2147483648 < c0 \/ align_ts code_sizeof_muggle_sowr_block_head_t d = 0 ->
+  2147483648 < c0 \/ ~ area_fits (npo2z (sowr_cap_arg c0)) (true_sharing (code_sizeof_muggle_sowr_block_head_t + d)) ->
   ref_sowr_init npo2z a bs c cap f hb c0 d m1 = (code_MUGGLE_ERR_INVALID_PARAM, 0, 0, 0, 0, 0, hb, -1, 0).
 Proof.
-  intros Hc Hd H. unfold ref_sowr_init. cbv zeta.
-  destruct H as [H|H].
-  - replace (c0 <=? 0) with false by lia. rewrite npo2z_big by (unfold two32 in *; lia). reflexivity.
-  - destruct (npo2z (if c0 <=? 0 then 8 else c0) mod two32 <=? 0); [reflexivity|]. rewrite H. reflexivity.
+  intros Hc Hd H. unfold ref_sowr_init. cbv zeta. fold (sowr_cap_arg c0).
+  destruct (Z_le_gt_dec c0 2147483648) as [Hle|Hgt].
+  2:{ unfold sowr_cap_arg. replace (c0 <=? 0) with false by lia. rewrite npo2z_big by (unfold two32 in *; lia). reflexivity. }
+  destruct H as [H|H]; [exfalso; lia|].
+  assert (Hc1 : 1 <= sowr_cap_arg c0 <= 2147483648) by (unfold sowr_cap_arg; destruct (c0 <=? 0) eqn:E; lia).
+  destruct (npo2z_cap _ Hc1) as [Hp _]. pose proof (pow2cap_pos _ Hp) as Hpos.
+  rewrite (pow2cap_mod32 _ Hp). replace (npo2z (sowr_cap_arg c0) <=? 0) with false by lia.
+  rewrite align64_exact by (code_consts; unfold two32 in *; lia).
+  destruct (true_sharing_bounds (code_sizeof_muggle_sowr_block_head_t + d)) as [Hb _]; [code_consts; lia|].
+  unfold area_fits, max32 in *.
+  rewrite Z.quot_div_nonneg by lia.
+  replace (true_sharing (code_sizeof_muggle_sowr_block_head_t + d) >? 4294967295 / npo2z (sowr_cap_arg c0)) with true
+    by (symmetry; apply Z.gtb_lt; apply Z.div_lt_upper_bound; lia).
+  reflexivity.
 Qed.
 
 Lemma sowr_init_accepts a bs c cap f hb c0 d m1 n scripts :
-  0 <= c0 <= 2147483648 -> 0 <= d < two32 -> align_ts code_sizeof_muggle_sowr_block_head_t d <> 0 -> m1 <> 0 ->
+  0 <= c0 <= 2147483648 -> 0 <= d < two32 ->
+  area_fits (npo2z (sowr_cap_arg c0)) (true_sharing (code_sizeof_muggle_sowr_block_head_t + d)) -> m1 <> 0 ->
   let s0 := sinit (zn (next_pow2 (Z.to_nat (sowr_cap_arg c0)))) 0 n scripts in
   let cap' := s_cap s0 in
-  let bs' := align_ts code_sizeof_muggle_sowr_block_head_t d in
+  let bs' := true_sharing (code_sizeof_muggle_sowr_block_head_t + d) in
   ref_sowr_init npo2z a bs c cap f hb c0 d m1 =
     (code_MUGGLE_OK, s_alloc s0, bs', s_cached s0, cap', s_free s0,
-     lfill hb cap' (fun i => blkidx 32 bs' i) (fun i => i), (bs' * cap') mod two32, 1) /\
+     lfill hb cap' (fun i => blkidx 32 bs' i) (fun i => i), cap' * bs', 1) /\
   pow2cap cap' /\ sowr_cap_arg c0 <= cap'.
 Proof.
-  intros Hc Hd Hb H1 s0 cap' bs'. subst s0 cap'. cbn [sinit s_cap s_alloc s_cached s_free].
+  intros Hc Hd Hfit H1 s0 cap' bs'. subst s0 cap'. cbn [sinit s_cap s_alloc s_cached s_free].
   assert (Hc1 : 1 <= sowr_cap_arg c0 <= 2147483648) by (unfold sowr_cap_arg; destruct (c0 <=? 0) eqn:E; lia).
   rewrite (next_pow2_npo2z _ Hc1). destruct (npo2z_cap _ Hc1) as [Hp Hle]. pose proof (pow2cap_pos _ Hp) as Hpos.
   split; [|split; assumption].
-  unfold ref_sowr_init. cbv zeta. fold (sowr_cap_arg c0). rewrite (pow2cap_mod32 _ Hp). fold bs'.
-  assert (Hbs : 0 <= bs' < two32) by (subst bs'; unfold align_ts, two32; apply Z.mod_pos_bound; lia).
-  replace (npo2z (sowr_cap_arg c0) <=? 0) with false by lia. replace (bs' <=? 0) with false by lia.
+  unfold ref_sowr_init. cbv zeta. fold (sowr_cap_arg c0). rewrite (pow2cap_mod32 _ Hp).
+  rewrite align64_exact by (code_consts; unfold two32 in *; lia). fold bs'.
+  destruct (true_sharing_bounds (code_sizeof_muggle_sowr_block_head_t + d)) as [Hb _]; [code_consts; lia|]. fold bs' in Hb.
+  unfold area_fits, max32 in *. fold bs' in Hfit.
+  assert (Hbs : 0 < bs' <= 4294967295) by (code_consts; nia).
+  replace (npo2z (sowr_cap_arg c0) <=? 0) with false by lia.
+  rewrite Z.quot_div_nonneg by lia.
+  replace (bs' >? 4294967295 / npo2z (sowr_cap_arg c0)) with false
+    by (symmetry; rewrite Z.gtb_ltb; apply Z.ltb_ge; apply Z.div_le_lower_bound; lia).
   replace (m1 =? 0) with false by lia.
+  rewrite (Z.mod_small bs' two32) by (unfold two32; lia).
+  rewrite (Z.mod_small (bs' * npo2z (sowr_cap_arg c0)) two32) by (unfold two32; nia).
   rewrite (Z.mod_small (npo2z (sowr_cap_arg c0) - 1) two32) by (unfold two32; lia).
-  change (0 mod two32) with 0. reflexivity.
+  change (0 mod two32) with 0. rewrite (Z.mul_comm bs'). reflexivity.
 Qed.
 
-Lemma sowr_init_sizes_partial_l a bs c cap f hb c0 d m1 :
-  0 <= c0 <= 2147483648 -> 0 <= d -> m1 <> 0 ->
+Lemma sowr_init_sizes_exact_l a bs c cap f hb c0 d m1 :
+  0 <= c0 < two32 -> 0 <= d < two32 -> m1 <> 0 ->
   let cap' := npo2z (sowr_cap_arg c0) in
   let bs' := true_sharing (code_sizeof_muggle_sowr_block_head_t + d) in
-  cap' * bs' < two32 ->
+  gen_sowr_init npo2z a bs c cap f hb c0 d m1 = (code_MUGGLE_ERR_INVALID_PARAM, 0, 0, 0, 0, 0, hb, -1, 0) \/
   exists hb',
     gen_sowr_init npo2z a bs c cap f hb c0 d m1 = (code_MUGGLE_OK, 0, bs', cap' - 1, cap', 0, hb', cap' * bs', 1) /\
-    fits cap' bs' /\ code_sizeof_muggle_sowr_block_head_t + d + 128 <= bs' /\
+    sowr_cap_arg c0 <= cap' /\ pow2cap cap' /\ fits cap' bs' /\ code_sizeof_muggle_sowr_block_head_t + d + 128 <= bs' /\
     (forall i, 0 <= i < cap' -> blkidx 32 bs' i = i) /\
     (zlenZ hb = cap' -> forall j, 0 <= j < cap' -> lget hb' j = j).
 Proof.
-  intros Hc Hd H1 cap' bs' Hfit.
-  assert (Hc1 : 1 <= sowr_cap_arg c0 <= 2147483648) by (unfold sowr_cap_arg; destruct (c0 <=? 0) eqn:E; lia).
-  destruct (npo2z_cap _ Hc1) as [Hp Hle]. pose proof (pow2cap_pos _ Hp) as Hpos. fold cap' in Hp, Hle, Hpos.
-  assert (Hh : 0 <= code_sizeof_muggle_sowr_block_head_t) by (code_consts; lia).
-  destruct (true_sharing_bounds (code_sizeof_muggle_sowr_block_head_t + d)) as [Hb1 Hb2]; [lia|]. fold bs' in Hb1, Hb2.
-  assert (Hbs : bs' < two32) by (unfold two32 in *; nia).
-  assert (Ea : align_ts code_sizeof_muggle_sowr_block_head_t d = bs') by (apply align_ts_exact; try lia; exact Hbs).
-  assert (Hdd : 0 <= d < two32) by (unfold two32 in *; lia).
-  assert (Hnz : align_ts code_sizeof_muggle_sowr_block_head_t d <> 0) by (rewrite Ea; lia).
-  assert (F : fits cap' bs') by (split; [lia | unfold two32 in Hfit; exact Hfit]).
+  intros Hc Hd H1 cap' bs'.
   rewrite gen_sowr_init_ref by (unfold u32, two32 in *; lia).
-  destruct (sowr_init_accepts a bs c cap f hb c0 d m1 0%nat (fun _ => []) Hc Hdd Hnz H1) as (E & _ & _).
-  cbn [sinit s_cap s_alloc s_cached s_free] in E. rewrite (next_pow2_npo2z _ Hc1) in E. fold cap' in E. rewrite Ea in E.
+  destruct (Z_le_gt_dec c0 2147483648) as [Hle|Hgt]; [|left; apply sowr_init_refuses; auto; lia].
+  destruct (Z_le_gt_dec (cap' * bs') max32) as [Hfit|Hno].
+  2:{ left. apply sowr_init_refuses; auto. all: try (right; unfold area_fits; fold cap' bs'; lia). }
+  right. assert (Hc0 : 0 <= c0 <= 2147483648) by lia.
+  destruct (sowr_init_accepts a bs c cap f hb c0 d m1 0%nat (fun _ => []) Hc0 Hd Hfit H1) as (E & _).
+  assert (Hc1 : 1 <= sowr_cap_arg c0 <= 2147483648) by (unfold sowr_cap_arg; destruct (c0 <=? 0) eqn:E0; lia).
+  cbn [sinit s_cap s_alloc s_cached s_free] in E. rewrite (next_pow2_npo2z _ Hc1) in E. fold cap' bs' in E.
   change (0 mod two32) with 0 in E.
-  eexists. split; [rewrite E; rewrite (Z.mul_comm bs' cap'); rewrite (Z.mod_small (cap' * bs') two32) by (unfold two32 in *; nia); reflexivity|].
-  split; [exact F|]. split; [lia|]. split.
-  - intros i Hi. apply (blkidx_wide 32 bs' i cap'); try lia. apply F.
-  - intros Hl j Hj. destruct (init_fill_cells hb cap' bs' (fun i => i) ltac:(lia) F Hl) as [_ A].
-    rewrite A by lia. reflexivity.
+  destruct (npo2z_cap _ Hc1) as [Hp Hle2]. pose proof (pow2cap_pos _ Hp) as Hpos. fold cap' in Hp, Hle2, Hpos.
+  destruct (true_sharing_bounds (code_sizeof_muggle_sowr_block_head_t + d)) as [Hb _]; [code_consts; lia|]. fold bs' in Hb.
+  assert (F : fits cap' bs') by (split; [code_consts; lia | unfold max32 in Hfit; lia]).
+  eexists. split; [rewrite E; reflexivity|].
+  split; [exact Hle2|]. split; [exact Hp|]. split; [exact F|]. split; [lia|]. split.
+  - intros i Hi. apply (blkidx_wide 32 bs' i cap'); try lia; apply F.
+  - intros Hl j Hj. destruct (init_fill_cells hb cap' bs' (fun i => i) ltac:(lia) F Hl) as [_ A]. rewrite A by lia. reflexivity.
 Qed.
 
-Lemma sowr_init_size_product_wraps_l : exists c0 d bs' cap' msz,
-  gen_sowr_init npo2z 0 0 0 0 0 [] c0 d 1 = (code_MUGGLE_OK, 0, bs', cap' - 1, cap', 0, [], msz, 1) /\
-  1 <= c0 <= 8 /\ d < bs' /\ msz < cap' * bs'.
-Proof. exists 8, 536870912, 536871104, 8, 1536. split; [vm_compute; reflexivity|]. vm_compute. repeat split; discriminate. Qed.
+Lemma sowr_init_oversize_refused_l :
+  gen_sowr_init npo2z 0 0 0 0 0 [] 8 536870912 1 = (code_MUGGLE_ERR_INVALID_PARAM, 0, 0, 0, 0, 0, [], -1, 0).
+Proof. vm_compute; reflexivity. Qed.
 
 (* ---------------- ring pool ---------------- *)
 Definition ring_cap_arg (c0 : Z) : Z := if c0 <? 2 then 2 else c0.        (* capacity below 2 means 2 *)
 
+Lemma ring_bs_pow2 d : 1 <= d < two32 ->
+  let bs := npo2z (d + code_sizeof_muggle_ring_mpool_block_head_t) in
+  d + code_sizeof_muggle_ring_mpool_block_head_t <= bs <= 8589934592.
+Proof.
+  intros Hd bs. subst bs.
+  destruct (npo2z_spec (d + code_sizeof_muggle_ring_mpool_block_head_t)) as (k & Hk & Ek & Hlek & Hl).
+  { change (2 ^ 63) with 9223372036854775808. code_consts. unfold two32 in *. lia. }
+  rewrite Ek. split; [exact Hlek|].
+  destruct Hl as [->|Hl]; [vm_compute; discriminate|].
+  assert (A : 2 ^ (k - 1) < 2 ^ 33) by (change (2 ^ 33) with 8589934592; code_consts; unfold two32 in *; lia).
+  apply Z.pow_lt_mono_r_iff in A; [|lia|lia].
+  assert (B : 2 ^ k <= 2 ^ 33) by (apply Z.pow_le_mono_r; lia). change (2 ^ 33) with 8589934592 in B. exact B.
+Qed.
+
 Lemma ring_init_refuses a bs cap hb hu c0 d m1 : 0 <= c0 < two32 -> 0 <= d < two32 ->
-  2147483648 < c0 \/ d = 0 ->
+  2147483648 < c0 \/ d = 0 \/
+  ~ area_fits (npo2z (ring_cap_arg c0)) (npo2z (d + code_sizeof_muggle_ring_mpool_block_head_t)) ->
   ref_ring_init npo2z a bs cap hb hu c0 d m1 = (code_MUGGLE_ERR_INVALID_PARAM, 0, 0, 0, hb, hu, -1, 0).
 Proof.
-  intros Hc Hd H. unfold ref_ring_init. cbv zeta.
-  destruct H as [H|H].
-  - replace (c0 <? 2) with false by lia. rewrite npo2z_big by (unfold two32 in *; lia). reflexivity.
-  - destruct (npo2z (if c0 <? 2 then 2 else c0) mod two32 <? 2); [reflexivity|]. replace (d =? 0) with true by lia. reflexivity.
+  intros Hc Hd H. unfold ref_ring_init. cbv zeta. fold (ring_cap_arg c0).
+  destruct (Z_le_gt_dec c0 2147483648) as [Hle|Hgt].
+  2:{ unfold ring_cap_arg. replace (c0 <? 2) with false by lia. rewrite npo2z_big by (unfold two32 in *; lia). reflexivity. }
+  assert (Hc1 : 2 <= ring_cap_arg c0 <= 2147483648) by (unfold ring_cap_arg; destruct (c0 <? 2) eqn:E; lia).
+  destruct (npo2z_cap (ring_cap_arg c0)) as [Hp Hle2]; [lia|]. pose proof (pow2cap_pos _ Hp) as Hpos.
+  rewrite (pow2cap_mod32 _ Hp). replace (npo2z (ring_cap_arg c0) <? 2) with false by lia.
+  destruct (Z.eq_dec d 0) as [D0|DN]; [replace (d =? 0) with true by lia; reflexivity|].
+  replace (d =? 0) with false by lia.
+  destruct H as [H|[H|H]]; try (exfalso; lia).
+  rewrite (Z.mod_small (d + code_sizeof_muggle_ring_mpool_block_head_t) two64) by (code_consts; unfold two64, two32 in *; lia).
+  pose proof (ring_bs_pow2 d ltac:(lia)) as Hb. cbv zeta in Hb.
+  unfold area_fits, max32 in *.
+  rewrite Z.quot_div_nonneg by lia.
+  replace (npo2z (d + code_sizeof_muggle_ring_mpool_block_head_t) >? 4294967295 / npo2z (ring_cap_arg c0)) with true
+    by (symmetry; apply Z.gtb_lt; apply Z.div_lt_upper_bound; lia).
+  reflexivity.
 Qed.
 
 Lemma ring_init_accepts a bs cap hb hu c0 d m1 n locked scripts :
-  0 <= c0 <= 2147483648 -> 1 <= d < two32 -> m1 <> 0 ->
+  0 <= c0 <= 2147483648 -> 1 <= d < two32 ->
+  area_fits (npo2z (ring_cap_arg c0)) (npo2z (d + code_sizeof_muggle_ring_mpool_block_head_t)) -> m1 <> 0 ->
   let s0 := rinit (next_pow2 (Z.to_nat (ring_cap_arg c0))) n locked scripts in
   let cap' := zn (r_cap s0) in
-  let bs' := npo2z (d + code_sizeof_muggle_ring_mpool_block_head_t) mod two32 in
+  let bs' := npo2z (d + code_sizeof_muggle_ring_mpool_block_head_t) in
   ref_ring_init npo2z a bs cap hb hu c0 d m1 =
     (code_MUGGLE_OK, zn (r_cursor s0), bs', cap',
      lfill hb cap' (fun i => blkidx 32 bs' i) (fun i => i),
-     lfill hu cap' (fun i => blkidx 32 bs' i) (fun _ => 0), (bs' * cap') mod two32, 1) /\
+     lfill hu cap' (fun i => blkidx 32 bs' i) (fun _ => 0), cap' * bs', 1) /\
   pow2cap cap' /\ 2 <= cap' /\ ring_cap_arg c0 <= cap' /\ (forall j, r_inuse s0 j = 0%nat).
 Proof.
-  intros Hc Hd H1 s0 cap' bs'. subst s0 cap'. cbn [rinit r_cap r_cursor r_inuse].
+  intros Hc Hd Hfit H1 s0 cap' bs'. subst s0 cap'. cbn [rinit r_cap r_cursor r_inuse].
   assert (Hc1 : 2 <= ring_cap_arg c0 <= 2147483648) by (unfold ring_cap_arg; destruct (c0 <? 2) eqn:E; lia).
   rewrite (next_pow2_npo2z (ring_cap_arg c0)) by lia.
   destruct (npo2z_cap (ring_cap_arg c0)) as [Hp Hle]; [lia|]. pose proof (pow2cap_pos _ Hp) as Hpos.
   split; [|repeat split; auto; lia].
   unfold ref_ring_init. cbv zeta. fold (ring_cap_arg c0). rewrite (pow2cap_mod32 _ Hp).
   replace (npo2z (ring_cap_arg c0) <? 2) with false by lia. replace (d =? 0) with false by lia.
-  replace (m1 =? 0) with false by lia.
   rewrite (Z.mod_small (d + code_sizeof_muggle_ring_mpool_block_head_t) two64) by (code_consts; unfold two64, two32 in *; lia).
-  fold bs'. reflexivity.
+  fold bs'. pose proof (ring_bs_pow2 d Hd) as Hb. cbv zeta in Hb. fold bs' in Hb.
+  unfold area_fits, max32 in *. fold bs' in Hfit.
+  assert (Hbs : 0 < bs' <= 4294967295) by (code_consts; nia).
+  rewrite Z.quot_div_nonneg by lia.
+  replace (bs' >? 4294967295 / npo2z (ring_cap_arg c0)) with false
+    by (symmetry; rewrite Z.gtb_ltb; apply Z.ltb_ge; apply Z.div_le_lower_bound; lia).
+  replace (m1 =? 0) with false by lia.
+  rewrite (Z.mod_small bs' two32) by (unfold two32; lia).
+  rewrite (Z.mod_small (bs' * npo2z (ring_cap_arg c0)) two32) by (unfold two32; nia).
+  rewrite (Z.mul_comm bs'). reflexivity.
 Qed.
 
-Lemma ring_init_sizes_partial_l a bs cap hb hu c0 d m1 :
-  0 <= c0 <= 2147483648 -> 1 <= d < two32 -> m1 <> 0 ->
+Lemma ring_init_sizes_exact_l a bs cap hb hu c0 d m1 :
+  0 <= c0 < two32 -> 0 <= d < two32 -> m1 <> 0 ->
   let cap' := npo2z (ring_cap_arg c0) in
   let bs' := npo2z (d + code_sizeof_muggle_ring_mpool_block_head_t) in
-  cap' * bs' < two32 ->
+  gen_ring_init npo2z a bs cap hb hu c0 d m1 = (code_MUGGLE_ERR_INVALID_PARAM, 0, 0, 0, hb, hu, -1, 0) \/
   exists hb' hu',
     gen_ring_init npo2z a bs cap hb hu c0 d m1 = (code_MUGGLE_OK, 0, bs', cap', hb', hu', cap' * bs', 1) /\
-    fits cap' bs' /\ d + code_sizeof_muggle_ring_mpool_block_head_t <= bs' /\
+    ring_cap_arg c0 <= cap' /\ pow2cap cap' /\ fits cap' bs' /\ d + code_sizeof_muggle_ring_mpool_block_head_t <= bs' /\
     (forall i, 0 <= i < cap' -> blkidx 32 bs' i = i) /\
     (zlenZ hb = cap' -> forall j, 0 <= j < cap' -> lget hb' j = j) /\
     (zlenZ hu = cap' -> forall j, 0 <= j < cap' -> lget hu' j = 0).
 Proof.
-  intros Hc Hd H1 cap' bs' Hfit.
-  assert (Hc1 : 2 <= ring_cap_arg c0 <= 2147483648) by (unfold ring_cap_arg; destruct (c0 <? 2) eqn:E; lia).
-  destruct (npo2z_cap (ring_cap_arg c0)) as [Hp Hle]; [lia|]. pose proof (pow2cap_pos _ Hp) as Hpos. fold cap' in Hp, Hle, Hpos.
-  assert (Hh : 0 <= code_sizeof_muggle_ring_mpool_block_head_t <= 4096) by (code_consts; lia).
-  destruct (npo2z_spec (d + code_sizeof_muggle_ring_mpool_block_head_t)) as (k & Hk & Ek & Hlek & _).
-  { change (2 ^ 63) with 9223372036854775808. unfold two32 in *. lia. }
-  assert (Hbpos : 0 < bs') by (subst bs'; lia).
-  assert (Hbs : bs' < two32) by (unfold two32 in *; nia).
-  assert (F : fits cap' bs') by (split; [lia | unfold two32 in Hfit; exact Hfit]).
+  intros Hc Hd H1 cap' bs'.
   rewrite gen_ring_init_ref by (unfold u32, two32 in *; lia).
-  destruct (ring_init_accepts a bs cap hb hu c0 d m1 0%nat false (fun _ => []) Hc Hd H1) as (E & _).
-  cbn [rinit r_cap r_cursor r_inuse] in E. rewrite (next_pow2_npo2z (ring_cap_arg c0)) in E by lia. fold cap' in E.
-  fold bs' in E. rewrite (Z.mod_small bs' two32) in E by lia.
-  eexists; eexists. split; [rewrite E; rewrite (Z.mul_comm bs' cap'); rewrite (Z.mod_small (cap' * bs') two32) by (unfold two32 in *; nia); reflexivity|].
-  split; [exact F|]. split; [subst bs'; lia|]. split; [|split].
-  - intros i Hi. apply (blkidx_wide 32 bs' i cap'); try lia. apply F.
+  destruct (Z_le_gt_dec c0 2147483648) as [Hle|Hgt]; [|left; apply ring_init_refuses; auto; lia].
+  destruct (Z.eq_dec d 0) as [D0|DN]; [left; apply ring_init_refuses; auto|].
+  destruct (Z_le_gt_dec (cap' * bs') max32) as [Hfit|Hno].
+  2:{ left. apply ring_init_refuses; auto. all: try (right; right; unfold area_fits; fold cap' bs'; lia). }
+  right. assert (Hc0 : 0 <= c0 <= 2147483648) by lia. assert (Hd1 : 1 <= d < two32) by lia.
+  destruct (ring_init_accepts a bs cap hb hu c0 d m1 0%nat false (fun _ => []) Hc0 Hd1 Hfit H1) as (E & _).
+  assert (Hc1 : 2 <= ring_cap_arg c0 <= 2147483648) by (unfold ring_cap_arg; destruct (c0 <? 2) eqn:E0; lia).
+  cbn [rinit r_cap r_cursor r_inuse] in E. rewrite (next_pow2_npo2z (ring_cap_arg c0)) in E by lia. fold cap' bs' in E.
+  destruct (npo2z_cap (ring_cap_arg c0)) as [Hp Hle2]; [lia|]. pose proof (pow2cap_pos _ Hp) as Hpos. fold cap' in Hp, Hle2, Hpos.
+  pose proof (ring_bs_pow2 d Hd1) as Hb. cbv zeta in Hb. fold bs' in Hb.
+  assert (F : fits cap' bs') by (split; [code_consts; lia | unfold max32 in Hfit; lia]).
+  eexists; eexists. split; [rewrite E; reflexivity|].
+  split; [exact Hle2|]. split; [exact Hp|]. split; [exact F|]. split; [lia|]. split; [|split].
+  - intros i Hi. apply (blkidx_wide 32 bs' i cap'); try lia; apply F.
   - intros Hl j Hj. destruct (init_fill_cells hb cap' bs' (fun i => i) ltac:(lia) F Hl) as [_ A]. rewrite A by lia. reflexivity.
   - intros Hl j Hj. destruct (init_fill_cells hu cap' bs' (fun _ => 0) ltac:(lia) F Hl) as [_ A]. rewrite A by lia. reflexivity.
 Qed.
 
-(* block_size = (muggle_sync_t)muggle_next_pow_of_2(data_size + sizeof(head)) is truncated to 32 bits: a data
-   size above 2^31 - sizeof(head) is ACCEPTED with block size 0 *)
-Lemma ring_init_block_size_wraps_l : exists d cap' msz,
-  gen_ring_init npo2z 0 0 0 [] [] 2 d 1 = (code_MUGGLE_OK, 0, 0, cap', [], [], msz, 1) /\ 1 <= d < two32.
-Proof. exists 2147483648, 2, 0. split; [vm_compute; reflexivity|]. vm_compute. repeat split; discriminate. Qed.
-
-Lemma ring_init_size_product_wraps_l : exists c0 d bs' cap' msz,
-  gen_ring_init npo2z 0 0 0 [] [] c0 d 1 = (code_MUGGLE_OK, 0, bs', cap', [], [], msz, 1) /\
-  1 <= c0 <= 8 /\ d < bs' /\ msz < cap' * bs'.
-Proof. exists 8, 536870912, 1073741824, 8, 0. split; [vm_compute; reflexivity|]. vm_compute. repeat split; discriminate. Qed.
+Lemma ring_init_oversize_refused_l :
+  gen_ring_init npo2z 0 0 0 [] [] 2 2147483648 1 = (code_MUGGLE_ERR_INVALID_PARAM, 0, 0, 0, [], [], -1, 0) /\
+  gen_ring_init npo2z 0 0 0 [] [] 8 536870912 1 = (code_MUGGLE_ERR_INVALID_PARAM, 0, 0, 0, [], [], -1, 0).
+Proof. split; vm_compute; reflexivity. Qed.
 
 (* ====================================================================== *)
 (* the model's init / block geometry (C05/Model.v section 4) is what the init references compute *)
@@ -455,40 +553,58 @@ Lemma model_geometry_consts :
 Proof. repeat split; reflexivity. Qed.
 
 Lemma ts_init_model_geometry a bs c cap f ptrs c0 d m1 m2 cap' :
-  1 <= c0 <= 2147483648 -> 1 <= d < two32 -> ts_block_size d <> 0 -> m1 <> 0 -> m2 <> 0 ->
+  1 <= c0 <= 2147483648 -> 1 <= d < two32 -> area_fits (npo2z c0) (true_sharing (head_ts + d)) -> m1 <> 0 -> m2 <> 0 ->
   ts_init_cap (Z.to_nat c0) = Some cap' ->
   ref_ts_init npo2z a bs c cap f ptrs c0 d m1 m2 =
     (code_MUGGLE_OK, 0, ts_block_size d, 0, zn cap', 0,
      lfill ptrs (zn cap') (fun i => i) (fun i => blkidx 32 (ts_block_size d) i),
      slab_bytes (zn cap') (ts_block_size d), zn cap' * cell_ts, 1, 2).
 Proof.
-  intros Hc Hd Hb H1 H2 Hcap. unfold ts_init_cap in Hcap.
+  intros Hc Hd Hfit H1 H2 Hcap. unfold ts_init_cap in Hcap.
   replace (Nat.eqb (Z.to_nat c0) 0) with false in Hcap by (symmetry; apply Nat.eqb_neq; lia).
   injection Hcap as <-.
-  destruct (ts_init_accepts a bs c cap f ptrs c0 d m1 m2 0%nat (fun _ => []) Hc Hd Hb H1 H2) as (E & _).
-  exact E.
+  change head_ts with code_sizeof_muggle_ts_memory_pool_head_t in Hfit.
+  destruct (ts_init_accepts a bs c cap f ptrs c0 d m1 m2 0%nat (fun _ => []) Hc Hd Hfit H1 H2) as (E & Hp & _).
+  cbn [tinit t_cap t_alloc t_cached t_free] in E, Hp. rewrite E.
+  pose proof (pow2cap_pos _ Hp) as Hpos. rewrite (next_pow2_npo2z c0 Hc) in *.
+  destruct (true_sharing_bounds (code_sizeof_muggle_ts_memory_pool_head_t + d)) as [Hb _]; [code_consts; lia|].
+  unfold area_fits, max32 in Hfit.
+  assert (Ea : ts_block_size d = true_sharing (code_sizeof_muggle_ts_memory_pool_head_t + d)).
+  { unfold ts_block_size. change head_ts with code_sizeof_muggle_ts_memory_pool_head_t.
+    apply align_ts_exact; code_consts; try lia. unfold two32. nia. }
+  rewrite Ea. unfold slab_bytes. rewrite Z.mod_small by (unfold two32; code_consts; nia). reflexivity.
 Qed.
 
 Lemma sowr_init_model_geometry a bs c cap f hb c0 d m1 cap' :
-  0 <= c0 <= 2147483648 -> 0 <= d < two32 -> sowr_block_size d <> 0 -> m1 <> 0 ->
+  0 <= c0 <= 2147483648 -> 0 <= d < two32 -> area_fits (npo2z (sowr_cap_arg c0)) (true_sharing (head_sowr + d)) -> m1 <> 0 ->
   sowr_init_cap (Z.to_nat c0) = Some cap' ->
   ref_sowr_init npo2z a bs c cap f hb c0 d m1 =
     (code_MUGGLE_OK, 0, sowr_block_size d, zn cap' - 1, zn cap', 0,
      lfill hb (zn cap') (fun i => blkidx 32 (sowr_block_size d) i) (fun i => i),
      slab_bytes (zn cap') (sowr_block_size d), 1).
 Proof.
-  intros Hc Hd Hb H1 Hcap. unfold sowr_init_cap in Hcap. injection Hcap as <-.
-  destruct (sowr_init_accepts a bs c cap f hb c0 d m1 0%nat (fun _ => []) Hc Hd Hb H1) as (E & _).
-  cbn [sinit s_cap s_alloc s_cached s_free] in E. change (0 mod two32) with 0 in E.
+  intros Hc Hd Hfit H1 Hcap. unfold sowr_init_cap in Hcap. injection Hcap as <-.
+  change head_sowr with code_sizeof_muggle_sowr_block_head_t in Hfit.
+  destruct (sowr_init_accepts a bs c cap f hb c0 d m1 0%nat (fun _ => []) Hc Hd Hfit H1) as (E & Hp & _).
+  cbn [sinit s_cap s_alloc s_cached s_free] in E, Hp. change (0 mod two32) with 0 in E.
   assert (A : Z.to_nat (sowr_cap_arg c0) = if Nat.eqb (Z.to_nat c0) 0 then 8%nat else Z.to_nat c0).
   { unfold sowr_cap_arg. destruct (Z.leb_spec c0 0).
     - replace c0 with 0 by lia. reflexivity.
     - replace (Nat.eqb (Z.to_nat c0) 0) with false by (symmetry; apply Nat.eqb_neq; lia). reflexivity. }
-  rewrite A in E. rewrite E. unfold slab_bytes. rewrite (Z.mul_comm (sowr_block_size d)). reflexivity.
+  rewrite A in E, Hp. rewrite E. pose proof (pow2cap_pos _ Hp) as Hpos.
+  assert (Hc1 : 1 <= sowr_cap_arg c0 <= 2147483648) by (unfold sowr_cap_arg; destruct (c0 <=? 0) eqn:E0; lia).
+  rewrite <- A in *. rewrite (next_pow2_npo2z _ Hc1) in *.
+  destruct (true_sharing_bounds (code_sizeof_muggle_sowr_block_head_t + d)) as [Hb _]; [code_consts; lia|].
+  unfold area_fits, max32 in Hfit.
+  assert (Ea : sowr_block_size d = true_sharing (code_sizeof_muggle_sowr_block_head_t + d)).
+  { unfold sowr_block_size. change head_sowr with code_sizeof_muggle_sowr_block_head_t.
+    apply align_ts_exact; code_consts; try lia. unfold two32. nia. }
+  rewrite Ea. unfold slab_bytes. rewrite Z.mod_small by (unfold two32; code_consts; nia). reflexivity.
 Qed.
 
 Lemma ring_init_model_geometry a bs cap hb hu c0 d m1 cap' :
-  0 <= c0 <= 2147483648 -> 1 <= d -> d + head_ring <= 2147483648 -> m1 <> 0 ->
+  0 <= c0 <= 2147483648 -> 1 <= d -> d + head_ring <= 2147483648 ->
+  area_fits (npo2z (ring_cap_arg c0)) (npo2z (d + head_ring)) -> m1 <> 0 ->
   ring_init_cap (Z.to_nat c0) = Some cap' ->
   ref_ring_init npo2z a bs cap hb hu c0 d m1 =
     (code_MUGGLE_OK, 0, ring_block_size d, zn cap',
@@ -496,19 +612,25 @@ Lemma ring_init_model_geometry a bs cap hb hu c0 d m1 cap' :
      lfill hu (zn cap') (fun i => blkidx 32 (ring_block_size d) i) (fun _ => 0),
      slab_bytes (zn cap') (ring_block_size d), 1).
 Proof.
-  intros Hc Hd Hdh H1 Hcap. unfold ring_init_cap in Hcap. injection Hcap as <-.
+  intros Hc Hd Hdh Hfit H1 Hcap. unfold ring_init_cap in Hcap. injection Hcap as <-.
   assert (Hd2 : 1 <= d < two32) by (unfold two32, head_ring in *; lia).
-  destruct (ring_init_accepts a bs cap hb hu c0 d m1 0%nat false (fun _ => []) Hc Hd2 H1) as (E & _).
-  cbn [rinit r_cap r_cursor r_inuse] in E.
+  change head_ring with code_sizeof_muggle_ring_mpool_block_head_t in Hfit.
+  destruct (ring_init_accepts a bs cap hb hu c0 d m1 0%nat false (fun _ => []) Hc Hd2 Hfit H1) as (E & Hp & _).
+  cbn [rinit r_cap r_cursor r_inuse] in E, Hp.
   assert (A : Z.to_nat (ring_cap_arg c0) = if Nat.ltb (Z.to_nat c0) 2 then 2%nat else Z.to_nat c0).
   { unfold ring_cap_arg. destruct (Z.ltb_spec c0 2).
     - replace (Nat.ltb (Z.to_nat c0) 2) with true by (symmetry; apply Nat.ltb_lt; lia). reflexivity.
     - replace (Nat.ltb (Z.to_nat c0) 2) with false by (symmetry; apply Nat.ltb_ge; lia). reflexivity. }
-  rewrite A in E.
-  assert (B : npo2z (d + code_sizeof_muggle_ring_mpool_block_head_t) mod two32 = ring_block_size d).
+  rewrite A in E, Hp. rewrite E. pose proof (pow2cap_pos _ Hp) as Hpos.
+  assert (Hc1 : 2 <= ring_cap_arg c0 <= 2147483648) by (unfold ring_cap_arg; destruct (c0 <? 2) eqn:E0; lia).
+  rewrite <- A in *. rewrite (next_pow2_npo2z (ring_cap_arg c0)) in * by lia.
+  assert (B : ring_block_size d = npo2z (d + code_sizeof_muggle_ring_mpool_block_head_t)).
   { unfold ring_block_size. change code_sizeof_muggle_ring_mpool_block_head_t with head_ring.
-    rewrite next_pow2_npo2z by (unfold head_ring in *; lia). reflexivity. }
-  rewrite B in E. rewrite E. unfold slab_bytes. rewrite (Z.mul_comm (ring_block_size d)). reflexivity.
+    rewrite next_pow2_npo2z by (unfold head_ring in *; lia).
+    destruct (npo2z_cap (d + head_ring)) as [Hq _]; [unfold head_ring in *; lia|]. apply pow2cap_mod32. exact Hq. }
+  rewrite B. pose proof (ring_bs_pow2 d Hd2) as Hb. cbv zeta in Hb.
+  unfold area_fits, max32 in Hfit.
+  unfold slab_bytes. rewrite Z.mod_small by (unfold two32; code_consts; nia). reflexivity.
 Qed.
 
 (* ---- block geometry: user regions of data_size bytes at stride block_size, each head bytes into its
